@@ -92,6 +92,8 @@ pub struct SimRng {
     pub infallible: bool,
     plan: VecDeque<Plan>,
     pub events: Vec<Event>,
+    /// events recorded so far, including those dropped by `forget_events`
+    pub events_total: u64,
     call: u32,
     attempt: u32,
     fresh_bytes_in_call: u64,
@@ -104,6 +106,9 @@ pub struct SimRng {
     pub err_code: u32,
     /// lean mode for complete word-space sweeps: first request gets `word`, later ones fresh words; no history
     pub sweep: Option<SweepState>,
+    /// interleaved-tasks mode: every seam crossing is a scheduling point (the task hands the baton to whichever
+    /// task the run's schedule names next and waits until it gets it back)
+    pub gate: Option<(std::sync::Arc<crate::tasks::Gate>, usize)>,
 }
 
 #[derive(Clone, Debug)]
@@ -121,6 +126,7 @@ impl SimRng {
             infallible,
             plan: VecDeque::new(),
             events: Vec::new(),
+            events_total: 0,
             call: 0,
             attempt: 0,
             fresh_bytes_in_call: 0,
@@ -132,6 +138,7 @@ impl SimRng {
             armed: VecDeque::new(),
             err_code: 0xC000_0007,
             sweep: None,
+            gate: None,
         }
     }
 
@@ -153,6 +160,11 @@ impl SimRng {
         let mut r = SimRng::new(0, false);
         r.stream = Some((bytes, 0));
         r
+    }
+
+    /// drop the recorded history (modes that make tens of thousands of calls and only ever look at the current one)
+    pub fn forget_events(&mut self) {
+        self.events.clear();
     }
 
     pub fn stream_pos(&self) -> usize {
@@ -195,6 +207,9 @@ impl SimRng {
             }
             return Ok(());
         }
+        if let Some((g, me)) = &self.gate {
+            g.yield_point(*me);
+        }
         self.attempt += 1;
         self.total_in_call += 1;
         let req = dest.len() as u32;
@@ -214,7 +229,8 @@ impl SimRng {
             dest.copy_from_slice(&buf[*pos..*pos + dest.len()]);
             *pos += dest.len();
             self.bytes_delivered += dest.len() as u64;
-            self.events.push(Event { call: self.call, attempt: self.attempt, method, req, resp: Resp::Ok(dest.to_vec()), src: Src::Stream });
+            self.events_total += 1;
+                self.events.push(Event { call: self.call, attempt: self.attempt, method, req, resp: Resp::Ok(dest.to_vec()), src: Src::Stream });
             return Ok(());
         }
         let mut p = self.plan.pop_front().unwrap_or(Plan::Fresh);
@@ -286,11 +302,13 @@ impl SimRng {
             }
             Resp::Err | Resp::PartialErr(_) => Err(()),
             Resp::Panic => {
+                self.events_total += 1;
                 self.events.push(Event { call: self.call, attempt: self.attempt, method, req, resp, src });
                 std::panic::panic_any(InjectedPanic);
             }
         };
-        self.events.push(Event { call: self.call, attempt: self.attempt, method, req, resp, src });
+        self.events_total += 1;
+                self.events.push(Event { call: self.call, attempt: self.attempt, method, req, resp, src });
         out
     }
 }
